@@ -82,7 +82,7 @@ def main():
                 if m and os.path.exists(m.group(1)):
                     try:
                         r = json.load(open(m.group(1)))
-                        b = r.get('break') or {}
+                        b = r.get('break') or (r.get('breaks') or [{}])[0] or {}
                         replays.append({'signature': b.get('signature'), 'kind': b.get('kind'), 'detail': (b.get('detail') or '')[:300],
                                         'no_failing_input': 'no-failing-input-found' in l,
                                         'no_longer_checks': [x.get('what') for x in r.get('no_longer_checks', [])][:5]})
